@@ -442,6 +442,9 @@ func main() {
 			r.Count("rounds_with_neighbouring_connections", 1)
 		}
 	}
+	// one socket write that does not return for 12 / 70 s of real time (longstall.go)
+	longStall(r)
+	r.Floor("long_stall_scenarios_held+violations", int(r.Counter("long_stall_scenarios_held"))+r.ViolationCount(), 1)
 	// harness B: real transport, responses and notifications meeting on every connection
 	fullStack(r, "plain", r.Pick(2, 12))
 	// race detector child (harness A and B)
